@@ -749,7 +749,7 @@ def _grid_cases(tier):
 def subs(tier):
     return [
         Enumerated("grid", check_live, cases=_grid_cases),
-        Generated("live", check_live, strategy=_live_cases(), quick=1500, thorough=30000),
+        Generated("live", check_live, strategy=_live_cases(), quick=2000, thorough=30000),
         Generated("orm", check_orm, strategy=_orm_cases(), quick=600, thorough=10000),
-        Generated("rec", check_rec, strategy=_rec_cases(), quick=1200, thorough=20000),
+        Generated("rec", check_rec, strategy=_rec_cases(), quick=1500, thorough=20000),
     ]
